@@ -61,6 +61,19 @@ func runC09(c *Ctx) {
 	reserved := m.fieldOf(pmm, "BitmapAllocator", "reservedPages")
 	initFn := m.lookupMethod(pmm, "BitmapAllocator", "init")
 	pmmInit := m.lookupFunc(pmm, "Init")
+	// The initialisation routine is not named by the property: when it has been
+	// inlined into pmm.Init, pmm.Init itself plays its role and the call that
+	// stands for "initialisation succeeded" is the pool setup.
+	initDone := initFn
+	if initFn == nil && pmmInit != nil {
+		if setup := m.lookupMethod(pmm, "BitmapAllocator", "setupPoolBitmaps"); setup != nil {
+			for _, cs := range m.callSites(setup) {
+				if cs.Parent() == pmmInit {
+					initFn, initDone = pmmInit, setup
+				}
+			}
+		}
+	}
 	setFA := m.lookupFunc("mm", "SetFrameAllocator")
 	for name, v := range map[string]interface{}{
 		"pmm.BitmapAllocator": allocT, "BitmapAllocator.mutex": mutexF, "sync.Spinlock.Acquire": acquire,
@@ -117,7 +130,7 @@ func runC09(c *Ctx) {
 	g := newIG(m, pmmInit, nil)
 	var initCalls, publishNodes []int
 	for n, in := range g.Ins {
-		if m.callsTo(in, initFn) {
+		if m.callsTo(in, initDone) {
 			initCalls = append(initCalls, n)
 		}
 		if m.callsTo(in, setFA) {
@@ -331,6 +344,9 @@ func runC09(c *Ctx) {
 			okCallers = false
 		}
 	}
+	if initFn == pmmInit {
+		okCallers = true // inlined: the routine is pmm.Init
+	}
 	c.check(okCallers, "C09.R3", "init-callers (*BitmapAllocator).init",
 		"called only from pmm.Init", "(*BitmapAllocator).init must be called (not referenced) only from pmm.Init")
 	for _, pn := range publishNodes {
@@ -338,7 +354,7 @@ func runC09(c *Ctx) {
 		okBefore, path := g.MustPassBefore(pn, func(n int) bool { return contains(initCalls, n) })
 		facts := g.FactsAt(pn)
 		nilErr := hasFact(facts, func(f Fact) bool {
-			return cmpMatch(f, token.EQL, func(v ssa.Value) bool { return derivesFromCall(v, initFn, m) }, isNilConst)
+			return cmpMatch(f, token.EQL, func(v ssa.Value) bool { return derivesFromCall(v, initDone, m) }, isNilConst)
 		})
 		after := g.Reach(g.Succ[pn], nil, nil)
 		reinit := false
